@@ -1253,7 +1253,7 @@ func c30PolicyPart(rep *mc.Report) {
 
 func TestVerifC30(t *testing.T) {
 	rep := mc.NewReport("C30")
-	rep.Rule = "tokens: every combination of envelope (alg EdDSA/HS256/none x kid named/other configured/unknown/absent/non-string x signing key x 11 tamperings of a validly signed token x kind header) x issuer x subject kind x exp offset x nbf offset x bit set, hand-assembled and passed to the real parseAccessToken with an injected now; policy: every subset of the bit alphabet carried by a real token (with a foreign-app copy of every absent bit), then every metric name (view) and every (old name, new name, single attribute change, create) (edit); sequences: every sequence of up to 3/4 presentations of (token, clock reading) over single tokens and pairs of tokens on ONE JWTHelper with a moving clock, each decision compared with a fresh helper's. Non-trivial = token that is valid or invalid for exactly one reason / decision where a bit matches or a remote-config metric is involved / guarded attribute change by someone with rights on the names / sequence in which the same token must be both accepted and rejected"
+	rep.Rule = "tokens: every combination of envelope (alg EdDSA/HS256/none x kid named/other configured/unknown/absent/non-string x signing key x 11 tamperings of a validly signed token x kind header) x issuer x subject kind x exp offset x nbf offset x bit set, hand-assembled and passed to the real parseAccessToken with an injected now; policy: every subset of the bit alphabet carried by a real token (with a foreign-app copy of every absent bit), then every metric name (view) and every (old name, new name, single attribute change, create) (edit); sequences: every sequence of up to 3/4 presentations of (token, clock reading) over single tokens and pairs of tokens on ONE JWTHelper with a moving clock, each decision compared with a fresh helper's; protected-prefix configurations: every ordered list (with repetition) of up to 3 protected prefixes over every string of length 0..3 over {a,b} (disjoint, nested, chained, duplicate, empty) x bit subsets carried by real tokens x every name of length 1..4/5 over {a,b} (view) and every (old,new) pair (edit), protected iff ANY configured prefix is a prefix of the name. Non-trivial = token that is valid or invalid for exactly one reason / decision where a bit matches or a remote-config metric is involved / guarded attribute change by someone with rights on the names / sequence in which the same token must be both accepted and rejected / decision with the default bit on a name that is protected only by a prefix other than its nearest configured predecessor in sort order"
 	rep.Assume("local-mode / insecure-mode (access control switched off by configuration) and the token-less health-check endpoint are outside the statement")
 	rep.Assume("signature primitives (crypto/ed25519, HMAC) are trusted; the harness signs with them")
 	t0 := time.Now()
@@ -1262,7 +1262,9 @@ func TestVerifC30(t *testing.T) {
 	c30PolicyPart(rep)
 	t2 := time.Now()
 	c30SequencePart(rep)
-	t.Logf("C30: token part %.1fs, policy part %.1fs, sequence part %.1fs", t1.Sub(t0).Seconds(), t2.Sub(t1).Seconds(), time.Since(t2).Seconds())
+	t3 := time.Now()
+	c30PrefixConfigPart(rep)
+	t.Logf("C30: token part %.1fs, policy part %.1fs, sequence part %.1fs, protected-prefix configurations %.1fs", t1.Sub(t0).Seconds(), t2.Sub(t1).Seconds(), t3.Sub(t2).Seconds(), time.Since(t3).Seconds())
 	if err := rep.Write(); err != nil {
 		t.Fatal(err)
 	}
